@@ -8,7 +8,9 @@
 //        mode      sasl | sasl2:<useFast 0|1>:<userAgent 0|1>
 //        disabled  default (library default untouched) | - | n1,n2,...
 //        preferred - | name
-//        creds     - | comma list of  pw  ht=<IanaHashAlgorithm value>:<ChannelBindingType enumerator>  fbt fba goo wl
+//        creds     - | comma list of  pw  ht=<IanaHashAlgorithm value>:<ChannelBindingType enumerator>[:s0|:sn]  fbt fba goo wl ;
+//                  a trailing 0 (pw0 fbt0 fba0 goo0 wl0) = the string is set but EMPTY (non-null); absent = null QString;
+//                  :s0 / :sn = the HT token's secret is empty / null
 //        universe  names addressed by the bit masks of `m` lines
 //   m <hexmask> <fast>     offer = universe names with bit set, in universe order; fast = ! (no <fast/> feature) | hexmask
 //   l <names> <fastnames>  explicit lists (order, duplicates); - = empty list, % = empty name, ! = no <fast/> feature
@@ -39,10 +41,13 @@ struct Capture : SendDataInterface {
 };
 
 // ------------------------------------------------------------------------------------------ configuration of a case group
+// every string credential has three states: 0 = null QString (never set), 1 = empty but non-null (QString(""),
+// e.g. the text of an empty input field or a cleared value), 2 = non-empty. Only state 2 is a usable secret.
 struct Creds {
-    bool pw = false, fbt = false, fba = false, goo = false, wl = false;
+    int pw = 0, fbt = 0, fba = 0, goo = 0, wl = 0;
     int htHash = -1;      // IanaHashAlgorithm value of the stored token, -1 = no token
     S htCb;               // ChannelBindingType enumerator name
+    int htSecret = 2;     // state of the token's secret string (the availability predicate does not look at it)
 };
 struct Conf {
     bool sasl2 = false, useFast = false, ua = false;
@@ -79,12 +84,13 @@ static QStringList qlist(const SV &l) { QStringList q; for (auto &s : l) q << QS
 static S credsStr(const Creds &c)
 {
     SV parts;
-    if (c.pw) parts.push_back("pw");
-    if (c.htHash >= 0) parts.push_back("ht=" + std::to_string(c.htHash) + ":" + c.htCb);
-    if (c.fbt) parts.push_back("fbt");
-    if (c.fba) parts.push_back("fba");
-    if (c.goo) parts.push_back("goo");
-    if (c.wl) parts.push_back("wl");
+    auto str = [&](int st, const char *n) { if (st == 2) parts.push_back(n); else if (st == 1) parts.push_back(S(n) + "0"); };
+    str(c.pw, "pw");
+    if (c.htHash >= 0) parts.push_back("ht=" + std::to_string(c.htHash) + ":" + c.htCb + (c.htSecret == 1 ? ":s0" : c.htSecret == 0 ? ":sn" : ""));
+    str(c.fbt, "fbt");
+    str(c.fba, "fba");
+    str(c.goo, "goo");
+    str(c.wl, "wl");
     return encList(parts);
 }
 static S confLine(const Conf &c)
@@ -101,15 +107,17 @@ static QXmppConfiguration makeConfig(const Conf &c)
     cfg.setDomain(QStringLiteral("example.org"));
     if (!c.defaultDisabled) cfg.setDisabledSaslMechanisms(qlist(c.disabled));
     if (!c.preferred.empty()) cfg.setSaslAuthMechanism(QString::fromStdString(c.preferred));
-    if (c.creds.pw) cfg.setPassword(QStringLiteral("secret"));
+    // state 1: an empty, non-null QString (isEmpty() && !isNull()); state 0: the field is left untouched (null QString)
+    auto val = [](int st, const char *text) { return st == 2 ? QString::fromLatin1(text) : QString(""); };
+    if (c.creds.pw) cfg.setPassword(val(c.creds.pw, "secret"));
     if (c.creds.htHash >= 0) {
         cfg.credentialData().htToken = HtToken { SaslHtMechanism { IanaHashAlgorithm(c.creds.htHash), cbOf(c.creds.htCb) },
-                                                 QStringLiteral("tok"), QDateTime() };
+                                                 c.creds.htSecret == 0 ? QString() : val(c.creds.htSecret, "tok"), QDateTime() };
     }
-    if (c.creds.fbt) cfg.setFacebookAccessToken(QStringLiteral("fbtoken"));
-    if (c.creds.fba) cfg.setFacebookAppId(QStringLiteral("fbapp"));
-    if (c.creds.goo) cfg.setGoogleAccessToken(QStringLiteral("gootoken"));
-    if (c.creds.wl) cfg.setWindowsLiveAccessToken(QStringLiteral("d2x0b2tlbg=="));
+    if (c.creds.fbt) cfg.setFacebookAccessToken(val(c.creds.fbt, "fbtoken"));
+    if (c.creds.fba) cfg.setFacebookAppId(val(c.creds.fba, "fbapp"));
+    if (c.creds.goo) cfg.setGoogleAccessToken(val(c.creds.goo, "gootoken"));
+    if (c.creds.wl) cfg.setWindowsLiveAccessToken(val(c.creds.wl, "d2x0b2tlbg=="));
     cfg.setUseFastTokenAuthentication(c.useFast);
     if (c.ua) cfg.setSasl2UserAgent(QXmppSasl2UserAgent(QUuid(QStringLiteral("{d4565fa7-4d72-4749-b3d3-740edbf87770}")), QStringLiteral("verif"), QStringLiteral("box")));
     return cfg;
@@ -226,10 +234,11 @@ static bool usable(const S &n, const Creds &c)
     int s = strength(n);
     if (s == -2) return false;
     if (s == 7) return !tokenName(c).empty() && tokenName(c) == n && n.size() > 5 && n.substr(n.size() - 5) == "-NONE";  // channel binding is not implemented
-    if (s >= 1 && s <= 6) return c.pw;
-    if (n == "X-OAUTH2") return c.goo;
-    if (n == "X-FACEBOOK-PLATFORM") return c.fbt && c.fba;
-    if (n == "X-MESSENGER-OAUTH2") return c.wl;
+    // a mechanism is usable only with a NON-EMPTY secret: an empty string (null or not) is no credential
+    if (s >= 1 && s <= 6) return c.pw == 2;
+    if (n == "X-OAUTH2") return c.goo == 2;
+    if (n == "X-FACEBOOK-PLATFORM") return c.fbt == 2 && c.fba == 2;
+    if (n == "X-MESSENGER-OAUTH2") return c.wl == 2;
     return true;  // ANONYMOUS
 }
 static bool has(const SV &l, const S &x) { return std::find(l.begin(), l.end(), x) != l.end(); }
@@ -324,7 +333,7 @@ struct Group {
 
 static Creds mkCreds(bool pw, int htHash, const char *cb, bool oauth, bool fba = true)
 {
-    Creds c; c.pw = pw; c.htHash = htHash; c.htCb = cb ? cb : ""; c.goo = c.wl = c.fbt = oauth; c.fba = oauth && fba; return c;
+    Creds c; c.pw = pw ? 2 : 0; c.htHash = htHash; c.htCb = cb ? cb : ""; c.goo = c.wl = c.fbt = oauth ? 2 : 0; c.fba = oauth && fba ? 2 : 0; return c;
 }
 
 // the exhaustive part: every subset of `universe` as offer, for one configuration.
@@ -361,8 +370,14 @@ static std::vector<Dis> disabledSets()
 static SV preferredSet() { return { "", "ANONYMOUS", "PLAIN", "DIGEST-MD5", "SCRAM-SHA-256", "HT-SHA-256-NONE", "X-OAUTH2", "EXTERNAL" }; }
 static std::vector<Creds> credSets()
 {
-    return { mkCreds(true, -1, nullptr, false), mkCreds(false, -1, nullptr, false), mkCreds(true, 0, "None", false),
-             mkCreds(false, 6, "None", false), mkCreds(true, -1, nullptr, true), mkCreds(false, -1, nullptr, true) };
+    std::vector<Creds> v = { mkCreds(true, -1, nullptr, false), mkCreds(false, -1, nullptr, false), mkCreds(true, 0, "None", false),
+                             mkCreds(false, 6, "None", false), mkCreds(true, -1, nullptr, true), mkCreds(false, -1, nullptr, true) };
+    // empty-but-non-null strings (state 1) are no credentials
+    Creds e1; e1.pw = 1; v.push_back(e1);                                                  // password "" only
+    Creds e2 = mkCreds(false, 0, "None", false); e2.pw = 1; e2.htSecret = 1; v.push_back(e2);  // password "" + HT token (secret "")
+    Creds e3 = mkCreds(true, -1, nullptr, false); e3.goo = e3.wl = e3.fbt = e3.fba = 1; v.push_back(e3);  // password + all oauth strings ""
+    Creds e4; e4.pw = 1; e4.goo = 2; e4.fbt = 2; e4.fba = 1; e4.wl = 1; v.push_back(e4);   // password "", google token, facebook token but app id ""
+    return v;
 }
 struct ModeP { bool sasl2, useFast, ua; int placement; };
 static std::vector<ModeP> modes()
@@ -414,9 +429,10 @@ static void randomPart(Rng &rng, int nConfigs, int perConfig)
         c.defaultDisabled = rng.below(3) == 0;
         if (!c.defaultDisabled) { int k = rng.below(5); for (int j = 0; j < k; j++) c.disabled.push_back(pick()); }
         if (rng.below(3) != 0) { c.preferred = pick(); if (c.preferred.empty()) c.preferred = "PLAIN"; }
-        c.creds.pw = rng.below(4) != 0;
-        if (rng.below(2)) { c.creds.htHash = rng.below(N_HASH); c.creds.htCb = rng.below(4) ? "None" : CB_ENUM[rng.below(3)]; }
-        c.creds.goo = rng.below(4) == 0; c.creds.wl = rng.below(4) == 0; c.creds.fbt = rng.below(3) == 0; c.creds.fba = rng.below(3) != 0;
+        auto st = [&](uint32_t pctSet) -> int { return rng.below(100) < pctSet ? 2 : int(rng.below(2)); };  // 2 | (0 or 1 evenly)
+        c.creds.pw = st(60);
+        if (rng.below(2)) { c.creds.htHash = rng.below(N_HASH); c.creds.htCb = rng.below(4) ? "None" : CB_ENUM[rng.below(3)]; c.creds.htSecret = rng.below(3); }
+        c.creds.goo = st(25); c.creds.wl = st(25); c.creds.fbt = st(35); c.creds.fba = st(50);
         // bias: make the token's own mechanism and its aliases likely to be offered
         S tok = tokenName(c.creds);
         Group g(c);
@@ -495,6 +511,16 @@ static void corpus()
         g.listCase({ "SCRAM-SHA-256" }, SV { "HT-SHA-256SHA-512-NONE" });
         g.listCase({ "SCRAM-SHA-256" }, SV { "HT-SHA-512-NONE" });
     }
+    // (4) initially missed seeded change C05_c2 (isNull() instead of isEmpty()): an empty, non-null password is no password
+    {
+        Conf c; c.creds.pw = 1; c.creds.goo = 2;
+        Group g(c);
+        g.listCase({ "SCRAM-SHA-512", "DIGEST-MD5", "ANONYMOUS", "X-OAUTH2" }, std::nullopt);   // must fall back to ANONYMOUS
+        g.listCase({ "SCRAM-SHA-512", "SCRAM-SHA-1", "DIGEST-MD5" }, std::nullopt);             // must report a mismatch
+        Conf c2 = c; c2.sasl2 = c2.useFast = c2.ua = true; c2.preferred = "SCRAM-SHA-256"; c2.creds.goo = 1; c2.creds.wl = 1; c2.creds.fbt = 2; c2.creds.fba = 1;
+        Group g2(c2);
+        g2.listCase({ "SCRAM-SHA-256", "X-OAUTH2", "X-MESSENGER-OAUTH2", "X-FACEBOOK-PLATFORM" }, std::nullopt);   // nothing usable
+    }
     // tst_qxmppsasl-like rows and plain sanity rows
     {
         Conf c; c.creds = mkCreds(true, -1, nullptr, false);
@@ -533,7 +559,7 @@ int main(int argc, char **argv)
         stat("exhaustive_u8_configs", (long long)confs8.size());
         // ... and all 4096 offers over the 12-name universe for a seeded sample of the configurations
         int n = 0;
-        for (size_t i = 0; i < confs12.size(); i++) if (rng.below(16) == 0) { allSubsets(confs12[i].first, confs12[i].second); n++; }
+        for (size_t i = 0; i < confs12.size(); i++) if (rng.below(24) == 0) { allSubsets(confs12[i].first, confs12[i].second); n++; }
         stat("exhaustive_u12_configs", n);
         auto confsB = allConfs(U12B);
         n = 0;
